@@ -511,6 +511,7 @@ func main() {
 	args := hx.ParseArgs()
 	meta := hx.NewMeta("h_idle", args.Seed, args.Tier)
 	devnull, _ := os.OpenFile(os.DevNull, os.O_WRONLY, 0)
+	hx.KeepStderr = os.Stderr
 	os.Stderr = devnull
 	netty.SetVerifSched(disp)
 	rng := hx.NewRng(args.Seed)
